@@ -141,11 +141,50 @@ def inner(n):
 
 
 def outer(n):
-    x = inner(n) + 1
+    x = inner(n) + 1  # TP:x
     if HOOK is not None:
         HOOK()
     return x
 '''
+
+
+def refused_handover_leg(c, wd):
+    """A span and a snapshot opened by the SAME event, the hand-over of the snapshot refused (delivery was closed by a
+    shutdown on another thread): whichever way the snapshot is handed over - at once (default stage) or when the line /
+    the function ends (capture stages) - the span is still closed once, and nothing reaches the application."""
+    import sys
+    from .. import rig as R
+    from deep.task import IllegalStateException
+    mod, path, marks = R.write_host(wd, SECOND_AGENT_HOST)
+    base = path.rsplit('/', 1)[-1]
+    inf = {'fire_count': '-1', 'fire_period': '0'}
+    for label, tps in (
+            ('one tracepoint: snapshot at once + line span', [dict(id='t', line=marks['x'], args=dict(inf, span='line'))]),
+            ('one tracepoint: snapshot at once + method span',
+             [dict(id='t', line=0, args=dict(inf, span='method', method_name='outer'))]),
+            ('snapshot tracepoint before a span tracepoint',
+             [dict(id='t1', line=marks['x'], args=dict(inf)), dict(id='t2', line=marks['x'], args=dict(inf, span='line', snapshot='no_collect'))]),
+            ('one tracepoint: line capture + line span', [dict(id='t', line=marks['x'], args=dict(inf, span='line', stage='line_capture'))])):
+        plugin = R.role_plugin('rec', {'span'})
+        rg = R.Rig(plugins=[plugin])
+        try:
+            rg.install([dict(t, path=base) for t in tps])
+            rg.push.fail = IllegalStateException()
+            res = rg.run(mod.outer, 4, only_file=path)
+            spans = [(s_.name, s_.closed) for s_ in plugin.spans]
+            bad = None
+            if res != ('ok', 9) or rg.escaped:
+                bad = 'host changed / handler raised: %r %r' % (res, rg.escaped)
+            elif len(spans) != 1 or spans[0][1] != 1:
+                bad = 'spans (name, times closed): %s - one was to be opened and closed once' % (spans,)
+        finally:
+            rg.close()
+        c.traces_validated += 1
+        c.note_case(key=('refused-handover', label), nontrivial=True)
+        if bad:
+            p_ = c.save_replay({'kind': 'refused-handover', 'tracepoints': label, 'what': bad})
+            c.violation('snapshot hand-over refused (%s): %s' % (label, bad), p_)
+    sys.modules.pop(mod.__name__, None)
 
 
 def second_agent_leg(c, wd):
@@ -246,6 +285,7 @@ def run(c):
     c03.validate(c, traces, meta, lambda m: m['closes'] >= 1)
     c.extra['captures_completed'] = sum(m['closes'] for m in meta)
     second_agent_leg(c, wd)
+    refused_handover_leg(c, wd)
     line_level_leg(c, wd, 1 if quick else 2, 700 if quick else 6000)     # (700: every schedule with one forced switch)
 
 
